@@ -305,7 +305,8 @@ def run(tier="quick", seed=0, replay=None):
     chk = core.Check("C20", tier, seed, "proof")
     chk.rule = ("float streams of 8 shapes (gaussian, large offset up to 1e9*spread, sorted, alternating, constant-then-jump, "
                 "tiny 1e-8, huge 1e8, mixed magnitudes), scales 1e-8..1e8, lengths 1..20000 (quick) / ..1e6 (thorough); "
-                "alpha in {1, 0.5, 0.1, 0.01, 0.001, 1e-6}. Non-trivial: length >= 2; distinct by hash of (shape, seed, n).")
+                "alpha in {1, 0.5, 0.1, 0.01, 0.001, 1e-6}; SlidingWindowTracker (k in 1,2,5,25) on the same shapes with outliers; every read-out "
+                "of float explainers in degenerate shapes. Non-trivial: length >= 2; distinct by hash of (shape, seed, n).")
     chk.trusted = ["Lean 4.33.0 kernel", "axioms propext/Classical.choice/Quot.sound",
                    "py2lean (fl-wrapped variant) — validated bit-for-bit against Python floats in binary64",
                    "standard rounding model: fl(a op b) = (a op b)(1+d), |d| <= 2^-53, no overflow/underflow (IEEE-754 binary64)"]
